@@ -120,9 +120,35 @@ def alias_pair_free(prog, rule, pair=("key", "key_orig")):
                         if isinstance(ini, dict) and ini.get("k") == "call" and ini.get("callee") in ("malloc", "calloc", "strdup", "cif_u_strdup", "cif_u_strndup"):
                             fresh_locals.add(v2["name"])
                 stale = []
+                # the entry may have been built through another local and handed over by a pointer copy (`e = built;`,
+                # also what an out-parameter of an extracted helper becomes when the helper is inlined)
+                same_entry = {base}
+                # pointers to the entry variable (`p = &e`): a store through *p is a store to e
+                addr_of = {}
+                for (b2, i2, r2, a) in fn.eval_sites("asg"):
+                    rr0 = strip(a.get("rhs"))
+                    if a.get("op") == "=" and isinstance(rr0, dict) and rr0.get("k") == "un" and rr0.get("op") == "&" and path(strip(rr0.get("e"))):
+                        addr_of[path(strip(a.get("lhs")))] = path(strip(rr0.get("e")))
+                for _ in range(2):
+                    for (b2, i2, r2, a) in fn.eval_sites("asg"):
+                        if a.get("op") != "=":
+                            continue
+                        lp0 = path(strip(a.get("lhs"))) or ""
+                        l0 = strip(a.get("lhs"))
+                        if isinstance(l0, dict) and l0.get("k") == "un" and l0.get("op") == "*":
+                            in0 = strip(l0.get("e"))
+                            if isinstance(in0, dict) and in0.get("k") == "un" and in0.get("op") == "&":
+                                lp0 = path(strip(in0.get("e"))) or ""      # `*&e = built` (an inlined out-parameter store)
+                        if lp0.startswith("*") and addr_of.get(lp0[1:].strip("()")) in same_entry:
+                            lp0 = addr_of[lp0[1:].strip("()")]
+                        if lp0 in same_entry:
+                            rp = path(strip(a.get("rhs")))
+                            if rp and re.match(r"^\w+$", rp):
+                                same_entry.add(rp)
+                targets = {"%s->%s" % (b_, fld) for b_ in same_entry} | {"%s.%s" % (b_, fld) for b_ in same_entry}
                 for (b2, i2, r2, a) in fn.eval_sites("asg"):
                     lp = path(strip(a.get("lhs"))) or ""
-                    if lp in ("%s->%s" % (base, fld), "%s.%s" % (base, fld)):
+                    if lp in targets:
                         rr = strip(a.get("rhs"))
                         if (isinstance(rr, dict) and rr.get("k") == "call" and rr.get("callee") in ("malloc", "calloc", "strdup", "cif_u_strdup", "cif_u_strndup")) \
                                 or path(rr) in fresh_locals:
